@@ -150,7 +150,7 @@ func runSingle(run *report.Run, check string, cfgs []*world.Config, mon func(*wo
 		if f := os.Getenv("VERIF_ONLY"); f != "" && !strings.Contains(cfg.Name, f) {
 			continue
 		}
-		e := &explore.Explorer{Cfg: cfg, Ops: ops(cfg), Mon: mon(cfg), Reduced: true, MaxDepth: cfg.MaxDepth}
+		e := &explore.Explorer{Cfg: cfg, Ops: ops(cfg), Mon: mon(cfg), Reduced: !cfg.Exact, MaxDepth: cfg.MaxDepth}
 		if !world.HookAvailable {
 			// black-box fallback: no merging possible, bounded-depth tree search
 			e.MaxDepth = 3
